@@ -24,7 +24,7 @@ def run(ctx):
     for v in ("start-late", "accept-eq", "swap"):
         ctx.expect_mutant_violates("ReducedCheck", cfg("bn254", 7, 256, "walk", variant=v), "ReducedCheck mutant " + v)
     small = [(5, 8), (7, 8), (13, 8), (47, 8), (251, 8)] if ctx.quick else \
-        [(p, 8) for p in (2, 3, 5, 7, 11, 13, 17, 19, 23, 29, 31, 37, 41, 43, 47, 53, 59, 61, 251)] + [(257, 16), (65521, 16), (47, 16)]
+        [(p, 8) for p in (3, 5, 7, 11, 13, 17, 19, 23, 29, 31, 37, 41, 43, 47, 53, 59, 61, 251)] + [(257, 16), (65521, 16), (47, 16)]
     for p, n in small + [(257, 8)] + ([] if ctx.quick else [(65521, 24)]):
         ctx.tlc("ReducedCheck", cfg("small", p, n, "walk"), label="ReducedCheck walk p=%d n=%d" % (p, n))
     # 2. behaviours for replay
